@@ -42,7 +42,8 @@ def classify(v):
 
 
 @st.composite
-def cases(draw, size, depth, profile="core"):
+def cases(draw, size, depth, profile=None):
+    profile = profile or draw(st.sampled_from(["core", "core", "core", "combs", "collections"]))
     prog = draw(gp.programs(size=size, depth=depth, profile=profile))
     return {"inputs": prog["inputs"], "code": prog["code"], "env": xc.env_to_json(draw(gp.env_strategy())),
             "chunks": prog["chunks"]}
